@@ -13,6 +13,9 @@ package main
 //               that names the correct operators with fabricated unprepared round changes.
 //   ignore-lock as forged-rc, but the justification is genuine (prepared round changes with their prepares):
 //               the Byzantine leader of round 2 attaches everything and proposes another value all the same.
+//   stale-rc    round 1 yields nothing; round 2 (correct leader) prepares and commits A, one operator decides;
+//               the Byzantine leader of round 3 justifies another value with the unprepared round changes the
+//               correct operators sent for round 2.
 //   early-prop  correct operators split between round 1 and round 2; the Byzantine leader of round 1
 //               sends a justified round-2 proposal.
 //   solo        one correct operator; every other key plays a proposal / prepares / commits sequence for a
@@ -28,7 +31,7 @@ import (
 	"verifharness/hx"
 )
 
-var attackKinds = []string{"equivocate", "forged-rc", "early-prop", "solo", "ignore-lock"}
+var attackKinds = []string{"equivocate", "forged-rc", "early-prop", "solo", "ignore-lock", "stale-rc"}
 
 func ofType(ms []*specqbft.SignedMessage, t specqbft.MessageType) []*specqbft.SignedMessage {
 	var out []*specqbft.SignedMessage
@@ -216,6 +219,56 @@ func attackOne(out *hx.Out, seed, c uint64, only string) {
 		b = s.all(rest, []*specqbft.SignedMessage{s.sign(ld(2), msg, W)})
 		b = s.all(rest, append(ofType(b, specqbft.PrepareMsgType), byzAll(specqbft.PrepareMsgType, 2, rootW)...))
 		s.all(rest, append(ofType(b, specqbft.CommitMsgType), byzAll(specqbft.CommitMsgType, 2, rootW)...))
+	case "stale-rc":
+		if ld(3) == ld(2) {
+			return
+		}
+		byzIDs = []spectypes.OperatorID{ld(3)}
+		for len(byzIDs) < f {
+			x := spectypes.OperatorID(1 + r.Intn(size))
+			dup := x == ld(2)
+			for _, y := range byzIDs {
+				dup = dup || x == y
+			}
+			if !dup {
+				byzIDs = append(byzIDs, x)
+			}
+		}
+		setup(byzIDs...)
+		for _, id := range s.honest {
+			s.nodes[id].start(uint64(5*int(id) + 1)) // round-1 proposals are lost
+		}
+		var rc2 []*specqbft.SignedMessage
+		for _, id := range s.honest {
+			rc2 = append(rc2, ofType(s.nodes[id].timeout(), specqbft.RoundChangeMsgType)...)
+		}
+		b := s.all(s.honest, rc2) // the correct leader of round 2 proposes
+		props := ofType(b, specqbft.ProposalMsgType)
+		if len(props) == 0 {
+			desc = "no-round-2-proposal"
+			break
+		}
+		b = s.all(s.honest, props[:1])
+		b = s.all(s.honest, append(ofType(b, specqbft.PrepareMsgType), byzAll(specqbft.PrepareMsgType, 2, props[0].Message.Root)...))
+		lucky := s.honest[r.Intn(len(s.honest))]
+		s.all([]spectypes.OperatorID{lucky}, append(ofType(b, specqbft.CommitMsgType), byzAll(specqbft.CommitMsgType, 2, props[0].Message.Root)...))
+		var rest []spectypes.OperatorID
+		for _, id := range s.honest {
+			if id != lucky {
+				rest = append(rest, id)
+				s.nodes[id].timeout() // into round 3 (their prepared round changes are withheld)
+			}
+		}
+		desc = fmt.Sprintf("decides-in-round-2=%d leader3=%d others=%v", lucky, ld(3), rest)
+		msg := s.base(specqbft.ProposalMsgType, 3, rootW)
+		just := append([]*specqbft.SignedMessage{}, rc2...) // signed for round 2, unprepared
+		for _, bz := range byzIDs {
+			just = append(just, s.sign(bz, s.base(specqbft.RoundChangeMsgType, 2, [32]byte{}), nil))
+		}
+		msg.RoundChangeJustification, _ = specqbft.MarshalJustifications(just)
+		b = s.all(rest, []*specqbft.SignedMessage{s.sign(ld(3), msg, W)})
+		b = s.all(rest, append(ofType(b, specqbft.PrepareMsgType), byzAll(specqbft.PrepareMsgType, 3, rootW)...))
+		s.all(rest, append(ofType(b, specqbft.CommitMsgType), byzAll(specqbft.CommitMsgType, 3, rootW)...))
 	case "early-prop":
 		if ld(1) == ld(2) {
 			return
